@@ -190,8 +190,12 @@ def run(rep, repo, tier):
     split(rv, [])
     rep.count('return_paths', len(paths))
     for guards, t in paths:
-        if any(NOT(g) in guards for g in guards) or t == NONE:
+        if any(NOT(g) in guards for g in guards):
             continue            # infeasible combination produced by merging early returns
+        if t == NONE:
+            rep.fail('C17.R2', f.where, 'the weight vector is returned on every path', got='no value is returned when ' + (' and '.join(show(g) for g in guards) or 'the function is called') + ' (numpy then draws uniformly: p=None)',
+                     want='return weights / sum(weights)', construct='distribution not returned')
+            continue
         subst_s = None
         cond_txt = ' and '.join(show(g) for g in guards) or 'always'
         n_is_one = False
